@@ -195,6 +195,10 @@ func (e *Env) determinism(rule string, concurrency bool) {
 			continue
 		}
 		s := e.F.Summarise(obj)
+		if (s.Err != "" || s.RangeLoops != nRange) && e.onlyReverseLookups(fn) {
+			c.Ok(rule, cons, e.P.Pos(fn.Pos()), "map iteration only as a reverse look-up that returns on the first matching entry (tables are injective: code-table)")
+			continue
+		}
 		if s.Err != "" || s.RangeLoops != nRange {
 			c.Fail(rule, cons, e.P.Pos(fn.Pos()), "iterates over a map other than as the reverse look-up  for k, v := range T { if x == v { return k } }  (result may depend on iteration order): "+s.Err)
 			continue
@@ -581,4 +585,95 @@ func (e *Env) reportHelpers() (exec, read *types.Func) {
 		return sig.Params().Len() == 1 && sig.Results().Len() == 2 && sig.Params().At(0).Type().String() == "io.Reader" && isString(sig.Results().At(0).Type())
 	})
 	return
+}
+
+// onlyReverseLookups: every map range loop of fn has the SSA shape of
+//
+//	for k, v := range M { if v == X { return ... } }
+//
+// with X loop-invariant: the body does nothing but compare the value and
+// return from the function on a match, so which entry is seen first only
+// matters if two entries match (excluded by the injectivity of the tables).
+func (e *Env) onlyReverseLookups(fn *ssa.Function) bool {
+	n := 0
+	for _, b := range fn.Blocks {
+		for _, in := range b.Instrs {
+			nx, ok := in.(*ssa.Next)
+			if !ok {
+				continue
+			}
+			rg, ok := nx.Iter.(*ssa.Range)
+			if !ok {
+				return false
+			}
+			if _, isMap := rg.X.Type().Underlying().(*types.Map); !isMap {
+				continue
+			}
+			n++
+			h := nx.Block()
+			// header: t = next; ok = extract #0; if ok goto body else done
+			iff, isIf := h.Instrs[len(h.Instrs)-1].(*ssa.If)
+			if !isIf || len(h.Succs) != 2 {
+				return false
+			}
+			okx, isEx := iff.Cond.(*ssa.Extract)
+			if !isEx || okx.Tuple != ssa.Value(nx) || okx.Index != 0 {
+				return false
+			}
+			body := h.Succs[0]
+			if len(body.Preds) != 1 {
+				return false
+			}
+			// body: k, v extracted, one comparison of v with a loop-invariant value, branch: match -> a block that returns, else -> header
+			var val *ssa.Extract
+			for _, bi := range body.Instrs[:len(body.Instrs)-1] {
+				ex, isEx := bi.(*ssa.Extract)
+				if isEx && ex.Tuple == ssa.Value(nx) {
+					if ex.Index == 2 {
+						val = ex
+					}
+					continue
+				}
+				if bo, isBin := bi.(*ssa.BinOp); isBin && bo.Op == token.EQL {
+					continue
+				}
+				return false
+			}
+			bif, isIf := body.Instrs[len(body.Instrs)-1].(*ssa.If)
+			if !isIf || val == nil {
+				return false
+			}
+			cmp, isBin := bif.Cond.(*ssa.BinOp)
+			if !isBin || cmp.Op != token.EQL {
+				return false
+			}
+			var other ssa.Value
+			switch {
+			case cmp.X == ssa.Value(val):
+				other = cmp.Y
+			case cmp.Y == ssa.Value(val):
+				other = cmp.X
+			default:
+				return false
+			}
+			if oi, isInstr := other.(ssa.Instruction); isInstr && oi.Block() != nil && h.Dominates(oi.Block()) {
+				return false // compared value computed inside the loop
+			}
+			match, again := body.Succs[0], body.Succs[1]
+			if again != h {
+				return false
+			}
+			if _, isRet := match.Instrs[len(match.Instrs)-1].(*ssa.Return); !isRet || len(match.Preds) != 1 {
+				return false
+			}
+			for _, mi := range match.Instrs[:len(match.Instrs)-1] {
+				switch mi.(type) {
+				case *ssa.Extract, *ssa.MakeInterface, *ssa.ChangeType, *ssa.Convert:
+				default:
+					return false
+				}
+			}
+		}
+	}
+	return n > 0
 }
